@@ -25,6 +25,7 @@ RULE = (
     "Non-trivial when the final simfile has a chart or a value containing an MSD metacharacter or line break; "
     "distinct by canonical JSON of the history."
     ' Round 5: near-miss keys of VERSION/NOTES/NOTEDATA set and moved to the front.'
+    ' Round 6: marathon charts with non-LF separators, 32-70 charts, second parse after the first result was edited in place.'
 )
 EXHAUSTIVE_PART = "all strings of length <= 4 (quick, 4681) / <= 5 (thorough, 37449) over 8 symbols in 6 placements"
 ASSUMPTIONS = ["msdparser.parse_msd tokenizes correctly", "values inside msdparser's escaping gaps are excluded by the property"]
